@@ -35,6 +35,35 @@ The translator never guesses: every construct outside the supported subset abort
                Virtual calls (`self._is_leap_year(...)`) are either bound to a named target (`binds`) or become a
                function parameter of the generated definition (`fun_params`, pure or `R`-valued); instance
                attributes of classes without a structure become ordinary parameters (`extra_params`/`self_attrs`).
+  objects with state   (third wave) a class whose methods CHANGE attributes of `self` (the codec reader / writer, FakeClock, the
+               caches) is translated as state-passing functions: the target names the state structure ("mstate": parameter,
+               type, "mode": "rw" / "ro", "py_param" when the object is a parameter other than `self`); reads and stores of
+               the declared attributes become reads and functional updates of that structure, every translated function
+               returns (result, final state), a raised exception discards the state (as the model does: nothing can observe
+               the object after the exception has propagated out of the modelled call), callees that work on the same
+               object receive and return it.  Property setters ("setter": true), `with <declared lock>:` ("locks": the body,
+               a lock changes nothing in a single-threaded model), generator bodies as one step ("generator_step"), slices
+               of a long procedure ("slice": {"from_text", "until_text"}; the slices must be independent checks).
+  optionals    an attribute / parameter / local declared `?T` is a run-time `Option T`; `x is None`, `x is not None`,
+               `if (x := f()) is None`, `while x is not None and …`, `if x is None or B` narrow it; use of an optional where
+               a T is needed without such a test is UNSUPPORTED.
+  containers   bytes / bytearray / list / dict / set / deque values of a declared type (the type entry names the Lean
+               functions for truthiness, len, indexing, item store / delete, the fresh empty value, and the mutating methods
+               with their element type); a mutable container created in the function may only be used through the one local
+               that holds it (an alias, a store into a parameter, mutation of a parameter or of the list being iterated are
+               UNSUPPORTED); `for x in <list>` (nested too) is structural recursion on the list, `for a, b in items`;
+               `tuple(f(r) for _ in range(n))` / list comprehensions of that shape are rewritten to an append loop;
+               `bytes([x])`.
+  loops        `while True:` with `return` inside, `while` with a `return` in the body, loop fuel given as a Lean term of
+               the state / parameters ("loop_fuel": "<term>" or a list, one per loop in source order).
+  exceptions   `try: … except (A, B) as e: raise C(...) from e` / bare `raise`: the body's outcome mapped through the
+               handlers (`Pyoda.Gen.pyTry`), the first handler whose classes include the raised class (subclass table
+               EXC_CLASSES, mirrored from CPython's hierarchy) decides; handlers that do anything but raise, `else`,
+               `finally` are UNSUPPORTED.
+  misc         nested-class constants and class paths "A.B.C", `match` on dotted constants, `SomeIntEnum(x)` (member lookup,
+               ValueError when absent), `hash(obj)` of an object of a translated class (the group's "object_hash" applied to
+               its translated `__hash__`), `==` / `!=` on declared identity-compared objects ("eq_only"), helper
+               alternatives chosen by argument types ("ignore" / "require"), "noop" helpers.
   names        Python identifiers are kept verbatim («quoted» when Lean reserves them); names invented by the
                translator contain `'`; a generated definition whose name a Python local would shadow is referred
                to by its fully qualified name.
@@ -2515,7 +2544,14 @@ class FnTranslator:
             self.bad(st, f"assignment target {type(target).__name__}")
         if target.id in ctx.constructing:
             self.bad(st, "rebinding the object under construction")
-        fr = self.fresh_object(value)
+        if isinstance(value, ast.Constant) and value.value is None and not isinstance(st, ast.AugAssign) and target.id not in self.loop_carried_names():
+            # `x = None` on a straight-line path (paths are never joined: tail duplication): x is statically None from here
+            # on — `x is None` is decided, passing x selects the None specialisation / the `none` of an optional parameter,
+            # any use as a value is refused
+            ctx.bind(target.id, "None")
+            ctx.mutables.discard(target.id)
+            return []
+        fr = self.fresh_object(value, getattr(st, "annotation", None))
         if fr is not None and not isinstance(st, ast.AugAssign):
             ctx.bind(target.id, fr[1])
             ctx.mutables.add(target.id)
@@ -2544,13 +2580,34 @@ class FnTranslator:
             return ast.copy_location(ast.Attribute(value=target.value, attr=target.attr, ctx=ast.Load()), target)
         self.bad(target, "augmented assignment target")
 
-    def fresh_object(self, v):
-        """`bytearray()`, `{}`, `[]` …: a declared type whose "fresh" table lists this expression text -> (lean text, type)"""
+    def loop_carried_names(self):
+        """names assigned inside a loop of the function being translated (their static type must not change there)"""
+        if getattr(self, "_loop_assigned", None) is None:
+            names = set()
+            for n in ast.walk(getattr(self, "scope", self.node)):
+                if isinstance(n, (ast.While, ast.For)):
+                    for m in ast.walk(n):
+                        if isinstance(m, ast.Name) and isinstance(m.ctx, ast.Store):
+                            names.add(m.id)
+            self._loop_assigned = names
+        return self._loop_assigned
+
+    def fresh_object(self, v, ann=None):
+        """`bytearray()`, `{}`, `[]` …: a declared type whose "fresh" table lists this expression text -> (lean text, type).
+        When several declared types have the same fresh text (`[]` for lists of different element types) the annotation of
+        the assignment (`periods: list[ZoneInterval] = []`) picks the one whose elements are of the annotated class."""
         if isinstance(v, (ast.Call, ast.Dict, ast.List)):
             txt = ast.unparse(v)
-            for ty, cfg in self.g.types.items():
-                if txt in cfg.get("fresh", {}):
-                    return cfg["fresh"][txt], ty
+            cands = [(ty, cfg) for ty, cfg in self.g.types.items() if txt in cfg.get("fresh", {})]
+            if len(cands) > 1 and isinstance(ann, ast.Subscript) and isinstance(ann.value, ast.Name) and ann.value.id == "list" \
+                    and isinstance(ann.slice, (ast.Name, ast.Attribute)):
+                want = ast.unparse(ann.slice).split(".")[-1]
+                by_elem = [(ty, cfg) for ty, cfg in cands if isinstance(cfg.get("elem"), str) and cfg["elem"] in self.g.types
+                           and self.g.types[cfg["elem"]].get("py_class", cfg["elem"]) == want]
+                if len(by_elem) == 1:
+                    cands = by_elem
+            if cands:
+                return cands[0][1]["fresh"][txt], cands[0][0]
         return None
 
     def is_new_object(self, v) -> bool:
@@ -3303,12 +3360,32 @@ class FnTranslator:
         # per-target binding (virtual dispatch resolved by the target list)
         if dotted in self.t.binds:
             name = self.t.binds[dotted]
+            if isinstance(name, list):
+                # several specialisations of the bound member (e.g. one per None / not-None argument): the call picks
+                # the one its arguments fit, as a direct call would
+                tg = [t for t in g.targets if t.lean_name in name]
+                if len(tg) != len(name):
+                    self.bad(e, f"binds entry {dotted} -> {name}: no such target")
+                return self.finish_call(e, tg, e.args, e.keywords, ctx, pre, cond, want_raw)
             if name in g.helpers:
                 return self.helper_call(e, g.helpers[name], [self.expr(a, ctx, pre, cond) for a in e.args], {k.arg: self.expr(k.value, ctx, pre, cond) for k in e.keywords}, ctx, pre, cond, want_raw)
             tg = [t for t in g.targets if t.lean_name == name]
             if not tg:
                 self.bad(e, f"binds entry {dotted} -> {name}: no such target")
             return self.finish_call(e, tg, e.args, e.keywords, ctx, pre, cond, want_raw)
+        if isinstance(f, ast.Name) and f.id == "hash" and len(e.args) == 1 and not e.keywords and "hash" not in self.local_names \
+                and g.cfg.get("object_hash") and not isinstance(e.args[0], ast.Starred):
+            # builtin `hash(obj)` of an object of a translated class: the integer its `__hash__` returns, then the
+            # builtin's own reduction of that integer (the group's "object_hash": Py_ssize_t range, -1 becomes -2)
+            pre2: list = []
+            a_, ta_ = self.expr(e.args[0], ctx, pre2, cond)
+            tc_ = g.types.get(ta_) if isinstance(ta_, str) else None
+            if tc_ is not None and not tc_.get("eq_only") and not tc_.get("len"):
+                pre.extend(pre2)
+                txt_, ty_ = self.operator_call(e, ta_, "__hash__", [(a_, ta_)], ctx, pre, cond)
+                if ty_ != "Int":
+                    self.bad(e, "__hash__ does not return Int")
+                return "pure", f"({g.cfg['object_hash']} {self.paren(txt_)})", "Int"
         if dotted in g.helpers:
             args, kw = self.helper_args(e, g.helpers[dotted], 0, ctx, pre, cond)
             return self.helper_call(e, g.helpers[dotted], args, kw, ctx, pre, cond, want_raw)
@@ -3499,6 +3576,8 @@ class FnTranslator:
             return ("", "Str")
         if isinstance(a, ast.Name) and ctx.vars.get(a.id) == "Str":
             return ("", "Str")
+        if isinstance(a, ast.Name) and ctx.vars.get(a.id) == "None" and a.id not in ctx.constructing:
+            return ("none", "None")   # a name that is statically None on this path
         return self.expr(a, ctx, pre, cond)
 
     def helper_call(self, e, h, args: list, kw: dict, ctx, pre, cond, want_raw):
@@ -3538,6 +3617,12 @@ class FnTranslator:
             wt = parse_type(want_types.get(p, "Int"))
             if ty == "Prop" and wt == "Bool":
                 txt, ty = f"decide ({strip_parens(txt)})", "Bool"
+            if isinstance(wt, str) and wt.startswith("?") and ty != wt:
+                # an optional parameter of the helper: a value of the inner type is `some`, a (statically) None value `none`
+                if ty == wt[1:]:
+                    txt, ty = f"(some {self.paren(txt)})", wt
+                elif ty == "None":
+                    txt, ty = "none", wt
             if ty != wt:
                 self.bad(e, f"helper argument {p} has type {ty}, expected {wt}")
             passed.append(txt)
@@ -3625,7 +3710,15 @@ class FnTranslator:
                 continue
             bound |= set(provided_kw)
             declared = dict(c.params)
-            if any(p in c.absent or p in c.none_params or (p not in declared) for p in bound):
+            given_all = dict(zip(pyp, pos_vals))
+            given_all.update(kw_vals)
+            # a literal `None` argument selects the specialisation that was translated for `<parameter> is None`
+            none_given = {n for n, (_, vty) in given_all.items() if vty == "None"
+                          and not (isinstance(declared.get(n), str) and declared[n].startswith("?"))}
+            if any(p not in c.none_params for p in none_given):
+                why.append(f"{c.lean_name}: None passed for a parameter this specialisation does not take as None")
+                continue
+            if any(p in c.absent or p in c.none_params or (p not in declared) for p in bound if p not in none_given):
                 why.append(f"{c.lean_name}: passes a parameter this specialisation treats as absent/defaulted")
                 continue
             need = {n for n, _ in c.params if n != c.pyparams[0] or c.kind in ("static", "function")}
@@ -3635,8 +3728,9 @@ class FnTranslator:
                 continue
             given = dict(zip(pyp, pos_vals))
             given.update(kw_vals)
-            mism = [n for n, (_, vty) in given.items()
-                    if not (vty == declared[n] or (vty == "Prop" and declared[n] == "Bool") or (vty == "Str" and declared[n] == "Str"))]
+            mism = [n for n, (_, vty) in given.items() if n not in none_given
+                    and not (vty == declared[n] or (vty == "Prop" and declared[n] == "Bool") or (vty == "Str" and declared[n] == "Str")
+                             or (isinstance(declared[n], str) and declared[n].startswith("?") and vty in ("None", declared[n][1:])))]
             if mism:
                 why.append(f"{c.lean_name}: argument type mismatch for {mism}")
                 continue
@@ -3695,6 +3789,12 @@ class FnTranslator:
                 txt, vty = vals[n]
                 if vty == "Prop" and ty == "Bool":
                     txt, vty = f"decide ({strip_parens(txt)})", "Bool"
+                if isinstance(ty, str) and ty.startswith("?") and vty != ty:
+                    # a run-time optional parameter: a value of the inner type is `some`, a (statically) None argument `none`
+                    if vty == ty[1:]:
+                        txt, vty = f"(some {self.paren(txt)})", ty
+                    elif vty == "None":
+                        txt, vty = "none", ty
                 if vty != ty:
                     self.bad(e, f"argument {n} of {c.lean_name} has type {vty}, expected {ty}")
                 out.append(txt)
